@@ -65,6 +65,14 @@ int main(void) {
       token822_unquote(&out, &ta); h_puthex((unsigned char *)out.s, out.len); fputs(" | ", h_res);
       token822_unparse(&out, &ta, 80); h_puthex((unsigned char *)out.s, out.len); fputc('\n', h_res);
     }
+    else if (!strcmp(line, "cnt")) {
+      /* fresh allocations: GEN_ALLOC_ready on a null field allocates exactly what the counting pass asked for */
+      stralloc fin = {0}, fbuf = {0}; token822_alloc fta = {0};
+      n = h_unhex(p, a); stralloc_copyb(&fin, (char *)a, n);
+      if (token822_parse(&fta, &fin, &fbuf) != 1) fputs("F\n", h_res);
+      else fprintf(h_res, "%u %u\n", fta.a, fbuf.a);
+      if (fin.s) free(fin.s); if (fbuf.s) free(fbuf.s); if (fta.t) free(fta.t);
+    }
     else if (!strcmp(line, "hf")) {
       char *f[5]; int i; size_t na, nb, nc;
       for (i = 0; i < 5; i++) { f[i] = p; p = strchr(p, ' '); if (p) *p++ = 0; else break; }
